@@ -327,6 +327,7 @@ pub fn exact_maps() -> Vec<ExactMap> {
         ExactMap { name: "scale_2m20", m: [p2(-20), 0.0, 0.0, 0.0, p2(-20), 0.0], axis: true },
         ExactMap { name: "scale_2m40", m: [p2(-40), 0.0, 0.0, 0.0, p2(-40), 0.0], axis: true },
         ExactMap { name: "scale_2p-7", m: [p2(-7), 0.0, 0.0, 0.0, p2(-7), 0.0], axis: true },
+        ExactMap { name: "scale_2p-11", m: [p2(-11), 0.0, 0.0, 0.0, p2(-11), 0.0], axis: true },
         ExactMap { name: "scale_2m80", m: [p2(-80), 0.0, 0.0, 0.0, p2(-80), 0.0], axis: true },
         ExactMap { name: "scale_2p100", m: [p2(100), 0.0, 0.0, 0.0, p2(100), 0.0], axis: true },
         ExactMap { name: "scale_2p40_tr", m: [p2(40), 0.0, p2(42), 0.0, p2(40), -p2(41)], axis: true },
